@@ -67,7 +67,7 @@ def synth(scope, part):
     times = [(m, s) for m in range(0, 1501) for s in "wsu"]    # 00:00 .. 25:00
     # --- rules: AT time x suffix, SAVE, years, letters ---
     rules = []
-    years = [0, 9999] + list(range(1873, 2127))
+    years = [0, 9999] + list(range(1872, 2128))      # every year the transformer admits (int8 offsets from 2000) and the two markers
     for i, (m, s) in enumerate(times):
         if i % 3 != part % 3:
             continue
